@@ -45,8 +45,8 @@ NEED_KINDS = [
 
 # driver-side classes that a run must have exercised (dead driver otherwise)
 NEED_STATS = ["adv:Lot", "adv:LotLate", "adv:Short", "adv:Long", "adv:LongLate", "adv:After", "adv:Epoch", "adv:Ready2", "adv:Lot2", "adv:Short2",
-              "timer", "delayed", "restart", "sync", "bulk", "pub0", "pub1", "dlv:g:ok", "dlv:g:already", "dlv:x:ok", "dlv:e:ok", "dlv:s:ok", "dlv:len:len",
-              "dlv:big:big", "dlv:next:epoch", "dlv:old:epoch", "dlv:nosig:sig", "dlv:stranger:flips", "dlv:x:flips", "dlv:batch"]
+              "timer", "delayed", "restart", "sync", "bulk", "in:x", "in:e", "in:s", "in:len", "in:big", "in:next", "in:old", "in:nosig",
+              "in:stranger", "in:flip", "dlv:batch"]     # (inputs, not the pools' answers: what the code makes of them is for the clauses to judge)
 
 # findings of this module's OWN rules that are no clause of the listed property C16 (which speaks of who can decrypt what):
 # recorded as observations in the evidence, never as a verdict
@@ -307,7 +307,7 @@ def run(ctx, quick):
     sps = _shards(ctx, drv, sjobs, 3000)
     st = _stats(ctx, sps) + _stats(ctx, rfut.result())
     pool.shutdown()
-    ctx.log("real worlds: " + " ".join("%s=%d" % kv for kv in sorted(st.items()) if not kv[0].startswith(("dlv:", "skip:", "ev:"))))
+    ctx.log("real worlds: " + " ".join("%s=%d" % kv for kv in sorted(st.items()) if not kv[0].startswith(("dlv:", "skip:", "ev:", "in:"))))
     for k in NEED_STATS:
         if not st.get(k):
             raise vlib.CheckError("the driver never produced '%s' (dead driver)" % k)
@@ -367,6 +367,7 @@ def run(ctx, quick):
         "keys_traces_validated_against_impl": st.get("worlds", 0), "keys_trace_lines": nlines,
         "keys_real": {k: st.get(k, 0) for k in ("worlds", "lines", "pub0", "pub1", "timer", "delayed", "restart", "sync", "offered", "bulk", "bulkmsgs", "random")},
         "keys_real_deliveries": {k[4:]: v for k, v in sorted(st.items()) if k.startswith("dlv:")},
+        "keys_real_delivery_inputs": {k[3:]: v for k, v in sorted(st.items()) if k.startswith("in:")},
         "keys_real_positions": {k[4:]: v for k, v in sorted(st.items()) if k.startswith("adv:")},
         "keys_steps_skipped_as_not_applicable": {k[5:]: v for k, v in sorted(st.items()) if k.startswith("skip:")},
         "keys_exported_by_kind": kinds,
